@@ -279,7 +279,7 @@ var filterFields = map[string][]string{
 	"pass": {"b"}, "block": {"b"}, "keyre": {"re"}, "famre": {"re"}, "qualre": {"re"}, "valre": {"re"},
 	"colrange": {"f", "sk", "s", "ek", "e"}, "valrange": {"sk", "s", "ek", "e"}, "tsrange": {"t0", "t1"},
 	"rowlimit": {"n"}, "rowoffset": {"n"}, "collimit": {"n"}, "strip": {}, "label": {"l"},
-	"chain": {"fs"}, "inter": {"fs"}, "cond": {"p", "tb", "fb"}, "sample": {}, "badsample": {}, "nil": {},
+	"chain": {"fs"}, "inter": {"fs"}, "cond": {"p", "tb", "fb"}, "sample": {"pn"}, "badsample": {"pn"}, "nil": {},
 }
 
 func prune(full interface{}, kindKey string, table map[string][]string, always ...string) ([]byte, error) {
